@@ -6,6 +6,7 @@
 package zzsimhook
 
 import (
+	"context"
 	crand "crypto/rand"
 	"io/fs"
 	"os"
@@ -23,6 +24,18 @@ func Y(site string) {
 	if Yield != nil {
 		Yield(site)
 	}
+}
+
+// AfterFuncHook, when set, replaces context.AfterFunc in the rewritten library files: the
+// simulator runs the callback itself, at a yield point it chooses after the cancellation, instead
+// of on a goroutine it does not schedule.
+var AfterFuncHook func(ctx context.Context, f func()) (stop func() bool)
+
+func AfterFunc(ctx context.Context, f func()) (stop func() bool) {
+	if h := AfterFuncHook; h != nil {
+		return h(ctx, f)
+	}
+	return context.AfterFunc(ctx, f)
 }
 
 // ---- filesystem hook ----
